@@ -74,23 +74,15 @@ func vfHavocBytes(b []byte) {
 func vfAlign(b []byte, align int)  {}
 func vfNote(s string)              {}
 func vfShared(b []byte, align int) {}
-func vfSpawn(f func()) {
-	panic("VFREPLAY: concurrent harness cannot be replayed by the sequential runner")
-}
-func vfJoin()        {}
-func vfAtomicBegin() {}
-func vfAtomicEnd()   {}
-func vfYield()       {}
+func vfAtomicBegin()               {}
+func vfAtomicEnd()                 {}
+func vfYield()                     {}
 func vfSameObject(a, b []byte) bool {
-	if cap(a) == 0 || cap(b) == 0 {
-		return false
-	}
-	// same backing array iff the ends of the capacity windows coincide
-	return &a[:cap(a)][cap(a)-1] == &b[:cap(b)][cap(b)-1] || vfOverlap(a, b)
+	// same region: one slice starts inside the capacity window of the other
+	return vfOffsetIn(a, b) >= 0 || vfOffsetIn(b, a) >= 0
 }
-func vfOverlap(a, b []byte) bool { return false }
-func vfOffsetOf(a []byte) int    { return -1 }
-func vfPrune()                   { panic("VFREPLAY: pruned shape case") }
+func vfOffsetOf(a []byte) int { return -1 }
+func vfPrune()                { panic("VFREPLAY: pruned shape case") }
 
 func vfOffsetIn(a, region []byte) int {
 	if cap(a) == 0 || cap(region) == 0 {
@@ -103,9 +95,145 @@ func vfOffsetIn(a, region []byte) int {
 	}
 	return int(pa - pr)
 }
-func vfSpawnAtomic(f func()) {
-	panic("VFREPLAY: concurrent harness cannot be replayed by the sequential runner")
+
+// ---------------------------------------------------------------------------------------------
+// Controlled scheduler for the native replay of a concurrent counterexample. The model's schedule
+// is given as, per thread, the list of its shared-access steps (source line ranges) and, per round,
+// how many of them it performs. Threads are goroutines that run one at a time; the instrumented
+// sources call vfGate before every statement; a thread is parked when it reaches the step that
+// belongs to a later round.
+
+type vfStep struct {
+	File string
+	Line int
 }
-func vfSpawnCut(f func(), cut int) {
-	panic("VFREPLAY: concurrent harness cannot be replayed by the sequential runner")
+
+type vfThread struct {
+	f      func()
+	steps  []vfStep // expected shared-access steps, in order
+	quota  []int    // steps per round
+	pos    int      // next expected step
+	round  int
+	done   int // steps done in the current round
+	resume chan struct{}
+	parked chan struct{}
+	fin    bool
+	stuck  bool
+}
+
+var (
+	vfThreads  []*vfThread
+	vfCurrent  = -1
+	vfSchedule [][]int    // [thread][round] = number of steps
+	vfStepsOf  [][]vfStep // [thread] = expected steps
+	vfDiverged string
+	vfFinished []bool // per thread: did it run to completion in the model
+)
+
+func vfSpawn(f func())             { vfThreads = append(vfThreads, &vfThread{f: f}) }
+func vfSpawnAtomic(f func())       { vfSpawn(f) }
+func vfSpawnCut(f func(), cut int) { vfSpawn(f) }
+
+func vfJoin() {
+	if len(vfThreads) == 0 {
+		return
+	}
+	if len(vfSchedule) != len(vfThreads) {
+		panic("VFREPLAY: schedule does not cover the harness threads")
+	}
+	rounds := 0
+	for i, th := range vfThreads {
+		th.quota = vfSchedule[i]
+		th.steps = vfStepsOf[i]
+		th.resume = make(chan struct{})
+		th.parked = make(chan struct{})
+		if len(th.quota) > rounds {
+			rounds = len(th.quota)
+		}
+	}
+	started := make([]bool, len(vfThreads))
+	for r := 0; r < rounds; r++ {
+		for i, th := range vfThreads {
+			if th.fin || th.stuck {
+				continue
+			}
+			last := r == rounds-1
+			if th.quota[r] == 0 && !last {
+				continue
+			}
+			th.round, th.done = r, 0
+			vfCurrent = i
+			if !started[i] {
+				started[i] = true
+				go func(i int, th *vfThread) {
+					<-th.resume
+					defer func() {
+						if x := recover(); x != nil {
+							if af, ok := x.(vfAssertFailure); ok {
+								vfFailed = af.id
+							} else {
+								vfDiverged = fmt.Sprint("panic in thread: ", x)
+								fmt.Fprintf(os.Stdout, "VFTHREAD-PANIC: %v\n", x)
+							}
+						}
+						th.fin = true
+						th.parked <- struct{}{}
+					}()
+					th.f()
+				}(i, th)
+			}
+			th.resume <- struct{}{}
+			<-th.parked
+			vfCurrent = -1
+		}
+	}
+	for i, th := range vfThreads {
+		if th.stuck {
+			continue
+		}
+		if !th.fin {
+			panic(fmt.Sprintf("VFREPLAY: thread %d did not finish within the model's rounds (diverged)", i))
+		}
+		if th.pos != len(th.steps) {
+			panic(fmt.Sprintf("VFREPLAY: thread %d performed %d of %d expected shared steps (diverged)", i, th.pos, len(th.steps)))
+		}
+	}
+	if vfFailed != "" {
+		panic(vfAssertFailure{vfFailed})
+	}
+	vfThreads = nil
+}
+
+// vfGate is called by the instrumented sources before every statement (line range lo..hi).
+func vfGate(file string, lo, hi int) {
+	if vfCurrent < 0 {
+		return
+	}
+	th := vfThreads[vfCurrent]
+	if th.pos >= len(th.steps) {
+		if vfCurrent < len(vfFinished) && !vfFinished[vfCurrent] {
+			// the model leaves this thread here (it never performs another shared access)
+			th.stuck = true
+			th.parked <- struct{}{}
+			select {}
+		}
+		return
+	}
+	st := th.steps[th.pos]
+	if st.File != file || st.Line < lo || st.Line > hi {
+		return // a statement without a shared access of the model
+	}
+	// this statement performs the next expected step (and possibly the following ones on its lines)
+	if th.done >= th.quota[th.round] {
+		// it belongs to a later round: park until rescheduled
+		th.parked <- struct{}{}
+		<-th.resume
+	}
+	for th.pos < len(th.steps) && th.steps[th.pos].File == file && th.steps[th.pos].Line >= lo && th.steps[th.pos].Line <= hi {
+		if os.Getenv("VERIF_TRACE") != "" {
+			fmt.Fprintf(os.Stdout, "NATIVE r%d t%d step %d %s:%d\n", th.round, vfCurrent, th.pos, file, th.steps[th.pos].Line)
+		}
+		th.pos++
+		th.done++
+	}
 }
